@@ -94,15 +94,16 @@ Definition exDelta : list Z := [0; 1; 0; 5; 1; 3; 1; 2; 3].
 
 Example C11_nonvacuous :
   forallb is_i32 exInts = true
-  /\ (exists S, snap_read_from_ints exInts = (Ok S, []) /\ sn_ext S = [(79228162551157825753847955460, 16384)])
-  /\ (exists d, delta_read_from_ints (fun _ => None) exDelta = (Ok d, []) /\ d_del d = []
-        /\ match snap_read_from_ints exInts with
-           | (Ok X, _) => fst (snap_read_with_delta X d) = Err DeltaDifferingSizes
-           | _ => False
-           end)
+  /\ match snap_read_from_ints exInts, delta_read_from_ints (fun _ => None) exDelta with
+     | (Ok X, []), (Ok d, []) =>
+       sn_ext X = [(79228162551157825753847955460, 16384)] /\ d_del d = []
+       /\ fst (snap_read_with_delta X d) = Err DeltaDifferingSizes
+       /\ @snap_items unit X = Ok (2, [(Ordinal 5, 1, [9; 9]); (Uuid 79228162551157825753847955460, 7, [7])])
+     | _, _ => False
+     end
   /\ fst (snap_read_from_ints [20; 1; 0; 5; 1; 2; 3; 4]) = Err InvalidUuidType
   /\ fst (raw_read_from_ints [8; 2; 0; 4; 65537; 65537]) = Err DuplicateKey.
-Proof. vm_compute. repeat split; eexists; repeat split. Qed.
+Proof. vm_compute. repeat split. Qed.
 
 Print Assumptions C11_total.
 Print Assumptions C11_limits.
